@@ -363,10 +363,12 @@ func (pkg *Package) enumSchemaFromDesc(sch *schema_j5pb.Enum) *EnumSchema {
 			name:        src.Name,
 			description: src.Description,
 			number:      src.Number,
+			Info:        src.Info,
 		}
 	}
 	return &EnumSchema{
 		NamePrefix: sch.Prefix,
+		InfoFields: sch.Info,
 		rootSchema: rootSchema{
 			description: sch.Description,
 			name:        sch.Name,
